@@ -35,13 +35,49 @@ def gen(rng, tier):
         n = rng.choice([0, 1, 1, 2, 3, L - 1, L, L + 1, max(0, L // 2), rng.randint(-2, L + 3)])
         cases.append({"fn": rng.choice(["smallest", "largest"]), "seq": seq, "n": n, "key": rng.choice(list(KEYS)),
                       "form": rng.choice(["list", "tuple", "gen", "gen", "varargs"])})
+    # items that are not signed numbers: strings, tuples, floats, numpy unsigned bytes (with 0 among them)
+    for _ in range(200 if not thorough else 4000):
+        kind = rng.choice(["str", "tuple", "float", "u8"])
+        L = rng.choice([1, 2, 3, 5, 8, 13, 30])
+        seq = [rng.randint(0, 255) if kind == "u8" else rng.randint(-50, 50) for _ in range(L)]
+        if kind == "u8" and rng.random() < 0.7:
+            seq[rng.randrange(L)] = 0
+        n = rng.choice([0, 1, 2, 3, L - 1, L, L + 1, max(0, L // 2)])
+        cases.append({"fn": rng.choice(["smallest", "largest"]), "seq": seq, "n": n, "key": "none", "kind": kind,
+                      "form": rng.choice(["list", "gen"] if kind in ("tuple", "str") else ["list", "tuple", "gen", "varargs"])})
     return cases
+
+
+# item kinds: the helpers take any mutually comparable items (the library itself passes edits and ranges); every kind is an
+# order-preserving image of the ints of the case, so model, expectation and monitor stay on the ints
+def _to_kind(kind, x):
+    if kind == "str":
+        return "k%05d" % (x + 20000)
+    if kind == "tuple":
+        return (x, "t")
+    if kind == "float":
+        return x / 4
+    if kind == "u8":
+        import numpy as np
+        return np.uint8(x)
+    return x
+
+
+def _from_kind(kind, y):
+    if kind == "str":
+        return int(y[1:]) - 20000
+    if kind == "tuple":
+        return int(y[0])
+    if kind == "float":
+        return int(y * 4)
+    return int(y)
 
 
 def impl(case):
     from graphtage import utils
     f = getattr(utils, case["fn"])
-    seq = case["seq"]
+    kind = case.get("kind", "int")
+    seq = [_to_kind(kind, x) for x in case["seq"]]
     kw = {"n": case["n"]}
     if KEYS[case["key"]] is not None:
         kw["key"] = KEYS[case["key"]]
@@ -56,7 +92,7 @@ def impl(case):
             res = list(f(list(seq), **kw))
     except TypeError:
         return {"res": "TypeError"}
-    return {"res": res}
+    return {"res": [_from_kind(kind, y) for y in res]}
 
 
 def to_model(case, obs):
@@ -75,7 +111,7 @@ def monitor(case, obs):
     hits = []
 
     def hit(key, what):
-        hits.append({"prop": "C16", "key": key, "what": "%s(%r, n=%d, key=%s, form=%s): %s" % (case["fn"], case["seq"], case["n"], case["key"], case["form"], what)})
+        hits.append({"prop": "C16", "key": key, "what": "%s(%r, n=%d, key=%s, form=%s): %s" % (case["fn"], [_to_kind(case.get("kind", "int"), x) for x in case["seq"]] if case.get("kind") in ("str", "tuple", "float") else case["seq"], case["n"], case["key"], case["form"], what)})
 
     if not isinstance(obs, dict) or "res" not in obs:
         if isinstance(obs, dict) and obs.get("error"):
